@@ -275,3 +275,207 @@ theorem validateFull_some_nonempty (mk : Opts → Path → Viol → FieldErr) (e
   rw [validateFull_eq_wrap] at h; exact wrap_some_nonempty _ _ r h
 
 end Rivaas.Presence
+
+namespace Rivaas.Presence
+
+/-! ### `validateAll` (several strategies) and `coerceToValidationErrors` -/
+
+theorem coerce_fields (errs : List FieldErr) (o : Opts) :
+    (fieldsOf (coerce errs o)).Perm
+      (if o.maxErrors > 0 ∧ errs.length > o.maxErrors then errs.take o.maxErrors else errs) := by
+  unfold coerce
+  cases errs with
+  | nil => simp [fieldsOf]
+  | cons a rest =>
+    simp only [List.isEmpty_cons, Bool.false_eq_true, if_false]
+    by_cases h : o.maxErrors > 0 ∧ (a :: rest).length > o.maxErrors
+    · rw [if_pos h, if_pos h]; exact sortErrs_perm _
+    · rw [if_neg h, if_neg h]; exact sortErrs_perm _
+
+theorem coerce_trunc (errs : List FieldErr) (o : Opts) :
+    truncOf (coerce errs o) = decide (o.maxErrors > 0 ∧ errs.length > o.maxErrors) := by
+  unfold coerce
+  cases errs with
+  | nil => simp [truncOf]
+  | cons a rest =>
+    simp only [List.isEmpty_cons, Bool.false_eq_true, if_false]
+    by_cases h : o.maxErrors > 0 ∧ (a :: rest).length > o.maxErrors
+    · rw [if_pos h]; simp only [truncOf]; exact (decide_eq_true h).symm
+    · rw [if_neg h]; simp only [truncOf]; exact (decide_eq_false h).symm
+
+theorem coerce_sorted (errs : List FieldErr) (o : Opts) :
+    (fieldsOf (coerce errs o)).Pairwise (fun a b => errLe a b = true) := by
+  unfold coerce
+  split
+  · simp [fieldsOf]
+  · split <;> (simp only [fieldsOf]; exact sortErrs_sorted _)
+
+/-- the combined list never exceeds a positive maximum (after the repair of K05g) -/
+theorem allLoop_capped (o : Opts) (hm : o.maxErrors > 0) (parts : List (Option Result))
+    (acc : List FieldErr) (t : Bool) (hacc : acc.length < o.maxErrors) :
+    (allLoop true o parts acc t).fields.length ≤ o.maxErrors := by
+  induction parts generalizing acc t with
+  | nil => simp only [allLoop]; omega
+  | cons p rest ih =>
+    cases p with
+    | none => simp only [allLoop]; exact ih acc t hacc
+    | some r =>
+      simp only [allLoop]
+      by_cases h : o.maxErrors > 0 ∧ (acc ++ r.fields).length ≥ o.maxErrors
+      · rw [if_pos h]; simp only [if_true]; exact List.length_take_le _ _
+      · rw [if_neg h]
+        apply ih
+        rcases Nat.lt_or_ge (acc ++ r.fields).length o.maxErrors with h1 | h1
+        · exact h1
+        · exact absurd ⟨hm, h1⟩ h
+
+/-- nothing is reported that no strategy reported -/
+theorem allLoop_sound (trim : Bool) (o : Opts) (parts : List (Option Result)) (acc : List FieldErr)
+    (t : Bool) (e : FieldErr) (he : e ∈ (allLoop trim o parts acc t).fields) :
+    e ∈ acc ∨ ∃ r, some r ∈ parts ∧ e ∈ r.fields := by
+  induction parts generalizing acc t with
+  | nil => simp only [allLoop] at he; exact Or.inl he
+  | cons p rest ih =>
+    cases p with
+    | none =>
+      simp only [allLoop] at he
+      rcases ih acc t he with h | ⟨r, hr, h⟩
+      · exact Or.inl h
+      · exact Or.inr ⟨r, List.mem_cons_of_mem _ hr, h⟩
+    | some r =>
+      simp only [allLoop] at he
+      by_cases h : o.maxErrors > 0 ∧ (acc ++ r.fields).length ≥ o.maxErrors
+      · rw [if_pos h] at he
+        have hmem : e ∈ acc ++ r.fields := by
+          cases trim with
+          | true => exact List.mem_of_mem_take he
+          | false => exact he
+        rcases List.mem_append.mp hmem with h1 | h1
+        · exact Or.inl h1
+        · exact Or.inr ⟨r, List.mem_cons_self .., h1⟩
+      · rw [if_neg h] at he
+        rcases ih _ _ he with h1 | ⟨r', hr', h1⟩
+        · rcases List.mem_append.mp h1 with h2 | h2
+          · exact Or.inl h2
+          · exact Or.inr ⟨r, List.mem_cons_self .., h2⟩
+        · exact Or.inr ⟨r', List.mem_cons_of_mem _ hr', h1⟩
+
+/-- unless the result says `Truncated`, everything every strategy reported is there -/
+theorem allLoop_complete (trim : Bool) (o : Opts) (parts : List (Option Result)) (acc : List FieldErr)
+    (t : Bool) (ht : (allLoop trim o parts acc t).truncated = false) (e : FieldErr)
+    (he : e ∈ acc ∨ ∃ r, some r ∈ parts ∧ e ∈ r.fields) : e ∈ (allLoop trim o parts acc t).fields := by
+  induction parts generalizing acc t with
+  | nil =>
+    simp only [allLoop]
+    rcases he with h | ⟨r, hr, _⟩
+    · exact h
+    · simp at hr
+  | cons p rest ih =>
+    cases p with
+    | none =>
+      simp only [allLoop] at ht ⊢
+      apply ih acc t ht
+      rcases he with h | ⟨r, hr, h⟩
+      · exact Or.inl h
+      · rcases List.mem_cons.mp hr with h0 | h0
+        · simp at h0
+        · exact Or.inr ⟨r, h0, h⟩
+    | some r0 =>
+      simp only [allLoop] at ht ⊢
+      by_cases h : o.maxErrors > 0 ∧ (acc ++ r0.fields).length ≥ o.maxErrors
+      · rw [if_pos h] at ht; simp at ht
+      · rw [if_neg h] at ht ⊢
+        apply ih _ _ ht
+        rcases he with h1 | ⟨r, hr, h1⟩
+        · exact Or.inl (List.mem_append_left _ h1)
+        · rcases List.mem_cons.mp hr with h0 | h0
+          · simp only [Option.some.injEq] at h0
+            exact Or.inl (List.mem_append_right _ (h0 ▸ h1))
+          · exact Or.inr ⟨r, h0, h1⟩
+
+/-- `Truncated` of the combined result means the maximum was reached, provided that holds for the
+    parts (it does: `full_truncated_only_when_full`, `coerce_trunc`) -/
+theorem allLoop_trunc (o : Opts) (parts : List (Option Result)) (acc : List FieldErr)
+    (hp : ∀ r, some r ∈ parts → r.truncated = true → o.maxErrors > 0 ∧ r.fields.length ≥ o.maxErrors)
+    (ht : (allLoop true o parts acc false).truncated = true) :
+    o.maxErrors > 0 ∧ (allLoop true o parts acc false).fields.length ≥ o.maxErrors := by
+  induction parts generalizing acc with
+  | nil => simp [allLoop] at ht
+  | cons p rest ih =>
+    cases p with
+    | none =>
+      simp only [allLoop] at ht ⊢
+      exact ih acc (fun r hr => hp r (List.mem_cons_of_mem _ hr)) ht
+    | some r =>
+      simp only [allLoop] at ht ⊢
+      by_cases h : o.maxErrors > 0 ∧ (acc ++ r.fields).length ≥ o.maxErrors
+      · rw [if_pos h]
+        simp only [if_true]
+        refine ⟨h.1, ?_⟩
+        rw [List.length_take]
+        have := h.2
+        omega
+      · rw [if_neg h] at ht ⊢
+        have hrt : r.truncated = false := by
+          cases hb : r.truncated with
+          | false => rfl
+          | true =>
+            have := hp r (List.mem_cons_self ..) hb
+            exfalso; apply h
+            refine ⟨this.1, ?_⟩
+            rw [List.length_append]; omega
+        rw [hrt] at ht ⊢
+        simp only [Bool.false_or] at ht ⊢
+        exact ih _ (fun r' hr' => hp r' (List.mem_cons_of_mem _ hr')) ht
+
+theorem validateAll_eq_wrap (trim : Bool) (parts : List (Option Result)) (o : Opts) :
+    validateAllWith trim parts o =
+      wrap (allLoop trim o parts [] false).fields (allLoop trim o parts [] false).truncated := by
+  unfold validateAllWith wrap; rfl
+
+end Rivaas.Presence
+
+namespace Rivaas.Presence
+
+/-- a part that is itself full stops the loop: the combined result is `Truncated` -/
+theorem allLoop_part_truncated (trim : Bool) (o : Opts) (parts : List (Option Result)) (acc : List FieldErr)
+    (t : Bool) (r : Result) (hr : some r ∈ parts)
+    (hfull : o.maxErrors > 0 ∧ r.fields.length ≥ o.maxErrors) :
+    (allLoop trim o parts acc t).truncated = true := by
+  induction parts generalizing acc t with
+  | nil => simp at hr
+  | cons p rest ih =>
+    cases p with
+    | none =>
+      simp only [allLoop]
+      rcases List.mem_cons.mp hr with h0 | h0
+      · simp at h0
+      · exact ih acc t h0
+    | some r0 =>
+      simp only [allLoop]
+      by_cases h : o.maxErrors > 0 ∧ (acc ++ r0.fields).length ≥ o.maxErrors
+      · rw [if_pos h]
+      · rw [if_neg h]
+        rcases List.mem_cons.mp hr with h0 | h0
+        · simp only [Option.some.injEq] at h0
+          exfalso; apply h
+          refine ⟨hfull.1, ?_⟩
+          rw [List.length_append, ← h0]; omega
+        · exact ih _ _ h0
+
+theorem coerce_isSome (errs : List FieldErr) (o : Opts) (h : errs ≠ []) : ∃ r, coerce errs o = some r := by
+  unfold coerce
+  cases errs with
+  | nil => exact absurd rfl h
+  | cons a rest =>
+    simp only [List.isEmpty_cons, Bool.false_eq_true, if_false]
+    by_cases hc : o.maxErrors > 0 ∧ (a :: rest).length > o.maxErrors
+    · rw [if_pos hc]; exact ⟨_, rfl⟩
+    · rw [if_neg hc]; exact ⟨_, rfl⟩
+
+theorem fieldsOf_some {x : Option Result} {e : FieldErr} (h : e ∈ fieldsOf x) : ∃ r, x = some r := by
+  cases x with
+  | none => simp [fieldsOf] at h
+  | some r => exact ⟨r, rfl⟩
+
+end Rivaas.Presence
